@@ -27,7 +27,7 @@ MANIFEST = {
     "technique": "Lean 4 theorems over an executable client/server/backup model; tied by regenerated tables and a differential rig",
     "design_ref": "5/C17",
 }
-MODULES = ["PrimaiteModel.Props.C17"]
+MODULES = ["PrimaiteModel.Props.C17", "PrimaiteModel.Lemmas.DatabaseReach"]
 EXE = "drv_c17"
 
 
@@ -56,6 +56,28 @@ def _sig(lines: List[str], i: int, impl: List[str], model: List[str]) -> dict:
     return {"kind": "model-vs-impl", "op": opname, "part": part}
 
 
+def _transfer_branch(op: str, prev_digest: str, blocks: dict) -> str:
+    """Which branch of backup_database / restore_backup an op exercised (for the evidence histogram only)."""
+    parts = prev_digest.split()
+    srv = parts[0][4:].split(",")
+    bk = parts[1][3:].split(",")
+    s_on = srv[0] == "ON" and srv[1] == "RUNNING"
+    bk_ok = bk[0] == "ON" and bk[1] == "RUNNING"
+    if not s_on:
+        return "unavailable"
+    if op == "backup" and srv[3] == "-":
+        return "no-live-file"
+    if blocks.get(0) or not bk_ok:
+        return "request-path-closed"
+    if op == "backup":
+        return "already-stored" if bk[2] != "-" else "ok"
+    if bk[2] == "-":
+        return "nothing-stored"
+    if srv[4] != "-":
+        return "ok-stale-download-reply-blocked" if blocks.get(1) else "ok-download-kept"
+    return "reply-blocked-no-copy(F-33 path)" if blocks.get(1) else "ok-fresh"
+
+
 def replay(rec: dict) -> bool:
     with lean_lock():
         from harness.lib.core import lake_build
@@ -79,7 +101,7 @@ def run(ctx: Ctx):
     cases = []
     for f in sorted((VERIF / "corpus" / "C17").glob("*.json")):
         cases.append(("corpus:" + f.name, json.loads(f.read_text())["case"]))
-    n = ctx.scale(600, 12000)
+    n = ctx.scale(600, 9000)
     rng = ctx.rng.fork("db")
     pre = {}
     for k in range(n):
@@ -103,10 +125,18 @@ def run(ctx: Ctx):
         ctx.count("clients:" + str(len(case["clients"])))
         ctx.count("profile:" + case.get("profile", "corpus"))
         ctx.count("len:" + str(min(len(case["ops"]) // 10 * 10, 60)) + "+")
+        blocks = {}
+        prev = ""
         for q, m in zip(lines, model):
             w = q.split()
             if w[0] in ("reset", "new", "cfg"):
                 continue
+            if w[0] == "blk":
+                blocks[int(w[1])] = w[2] == "1"
+            if w[0] in ("backup", "restore") and prev:
+                ctx.count(f"branch:{w[0]}:" + _transfer_branch(w[0], prev, blocks))
+            if " | " in m:
+                prev = m.split(" | ")[1]
             ctx.count("op:" + w[0] + (":" + w[1] if w[0] == "svc" else ""))
             if m == "bad-op":
                 raise RuntimeError(f"driver rejected line {q!r}")
